@@ -539,6 +539,7 @@ class Transaction:
         # 2. Process deletes (rewrite affected manifests)
         final_manifests: List[ManifestFile] = []
         if deleted_paths:
+            normalized_deleted = {p.lstrip("/") for p in deleted_paths}
             for manifest in existing_manifests:
                 manifest_path = manifest.manifest_path
                 if manifest_path.startswith("/"):
@@ -552,10 +553,14 @@ class Transaction:
                         f"Failed to read manifest {manifest.manifest_path} during delete operation"
                     ) from e
 
+                # '/data/x' and 'data/x' name the same file everywhere else
+                # (validate_file_exists, scans, GC). Normalise BOTH sides: with
+                # only the manifest side stripped, delete_files(['/data/x'])
+                # against an entry stored as 'data/x' committed a "delete"
+                # snapshot that still contained the file.
                 surviving_files = [
                     f for f in data_files
-                    if f.file_path not in deleted_paths
-                    and f.file_path.lstrip("/") not in deleted_paths
+                    if f.file_path.lstrip("/") not in normalized_deleted
                 ]
 
                 if len(surviving_files) == len(data_files):
